@@ -16,6 +16,7 @@
 #include "thrift/parquet_types.h"
 #include <stdlib.h>
 #include <string.h>
+#include <math.h>
 
 /* Forward declarations for compression */
 extern carquet_status_t carquet_snappy_compress(const uint8_t* src, size_t src_size,
@@ -273,8 +274,9 @@ static void update_statistics_float(carquet_page_writer_t* writer,
             float min_v, max_v;
             memcpy(&min_v, writer->min_value, sizeof(min_v));
             memcpy(&max_v, writer->max_value, sizeof(max_v));
-            if (v < min_v) memcpy(writer->min_value, &v, sizeof(v));
-            if (v > max_v) memcpy(writer->max_value, &v, sizeof(v));
+            /* NaN orders after every value, as in the statistics builder */
+            if (v < min_v || (isnan(min_v) && !isnan(v))) memcpy(writer->min_value, &v, sizeof(v));
+            if (v > max_v || (isnan(v) && !isnan(max_v))) memcpy(writer->max_value, &v, sizeof(v));
         }
     }
 }
@@ -292,8 +294,9 @@ static void update_statistics_double(carquet_page_writer_t* writer,
             double min_v, max_v;
             memcpy(&min_v, writer->min_value, sizeof(min_v));
             memcpy(&max_v, writer->max_value, sizeof(max_v));
-            if (v < min_v) memcpy(writer->min_value, &v, sizeof(v));
-            if (v > max_v) memcpy(writer->max_value, &v, sizeof(v));
+            /* NaN orders after every value, as in the statistics builder */
+            if (v < min_v || (isnan(min_v) && !isnan(v))) memcpy(writer->min_value, &v, sizeof(v));
+            if (v > max_v || (isnan(v) && !isnan(max_v))) memcpy(writer->max_value, &v, sizeof(v));
         }
     }
 }
